@@ -30,7 +30,7 @@ import render
 REPO_FILES = os.path.join(pl.REPO, 'tests', 'files')
 
 TRACE_CFG = ('SPECIFICATION Spec\nCONSTANTS\n  MaxLen = 0\n  Alphabet = {}\n  Mut = {}\n  MaxChanges = 0\n'
-             '  MinChanges = 0\n  Skips = {}\n  OnlyBfs = FALSE\n  FillerIdx = {}\n  Inject = FALSE\nPOSTCONDITION TraceAccepted\nCHECK_DEADLOCK FALSE\n')
+             '  MinChanges = 0\n  Skips = {}\n  OnlyBfs = FALSE\n  FillerIdx = {}\n  Inject = FALSE\n  FinishEarly = FALSE\nPOSTCONDITION TraceAccepted\nCHECK_DEADLOCK FALSE\n')
 
 # Probe texts: every keyword the grammar matches as one literal, the other word sequences of X.680,
 # abutting punctuation, and character strings that contain comment markers.
@@ -205,9 +205,9 @@ def probe_texts():
 
 def layout_cfg(max_changes, min_changes, skips, only_bfs, fillers, inject, invariants):
     return ('SPECIFICATION LaySpec\nCONSTANTS\n  MaxLen = 0\n  Alphabet = {}\n  Mut = {}\n  MaxChanges = %d\n  MinChanges = %d\n'
-            '  %s\n  OnlyBfs = %s\n  %s\n  Inject = %s\n%sCHECK_DEADLOCK FALSE\n' % (
+            '  %s\n  OnlyBfs = %s\n  %s\n  Inject = %s\n  FinishEarly = %s\n%sCHECK_DEADLOCK FALSE\n' % (
                 max_changes, min_changes, skips, 'TRUE' if only_bfs else 'FALSE', fillers, 'TRUE' if inject else 'FALSE',
-                ''.join('INVARIANT %s\n' % i for i in invariants)))
+                'TRUE' if only_bfs else 'FALSE', ''.join('INVARIANT %s\n' % i for i in invariants)))
 
 
 def read_ndjson(paths):
@@ -268,7 +268,7 @@ def layout_phase(run, tier, seed):
                                what='Layout BFS: every pair of filler changes on the tiny probe')
     scheds += pl.dedup_cases(out, 'b2')
     num, depth = (300, 100) if quick else (6000, 200)
-    out, res = pl.tlc_generate(run, 'Layout', layout_cfg(100000, 1, 'Skips = {1, 2, 3, 5, 8, 13}', False, 'FillerIdx <- AllFillers', True, []),
+    out, res = pl.tlc_generate(run, 'Layout', layout_cfg(100000, 1, 'Skips = {1, 2, 3, 5, 8, 13, 21, 34}', False, 'FillerIdx <- AllFillers', True, []),
                                'sched_sim.ndjson', workers=workers(), simulate='num=%d' % num, depth=depth,
                                env={'TOKENS_FILE': wpath}, timeout=3600,
                                what='Layout -simulate num=%d: left-to-right sweeps over all windows' % num)
@@ -341,16 +341,17 @@ def c14(tier, seed):
                 box['masks'] = masks_phase(run, maxlen)
             except BaseException as e:  # noqa
                 box['err'] = e
-        th = threading.Thread(target=masks)
-        th.start()
-        treports, tshards, lreports, lshards = layout_phase(run, tier, seed)
-        th.join()
-        if 'err' in box:
-            raise box['err']
-        mreports, mshards = box['masks']
-        pl.classify(run, mreports, LazyIndex(mshards), 'C14')
-        pl.classify(run, treports, LazyIndex(tshards), 'C14')
-        pl.classify(run, lreports, LazyIndex(lshards), 'C14')
+        only = os.environ.get('VERIF_C14_ONLY', '')      # development: 'masks' or 'layout'
+        if only != 'layout':
+            masks()
+            if 'err' in box:
+                raise box['err']
+            mreports, mshards = box['masks']
+            pl.classify(run, mreports, LazyIndex(mshards), 'C14')
+        if only != 'masks':
+            treports, tshards, lreports, lshards = layout_phase(run, tier, seed)
+            pl.classify(run, treports, LazyIndex(tshards), 'C14')
+            pl.classify(run, lreports, LazyIndex(lshards), 'C14')
         run.assumptions = [
             'TLC and SANY are correct; spec/Comments.tla transcribes X.680 12.6 (comments) and 12.1-12.37 (lexical items) faithfully',
             'white-space is space, tab, new-line, carriage return; other new-line characters of X.680 12.1.6 (VT, FF) and no-break space are outside the explored alphabet',
